@@ -2,39 +2,1051 @@
 import NautilusVerif.Lemmas.CoreWF
 import Mathlib.Data.List.Basic
 import Mathlib.Data.List.Nodup
+import Mathlib.Data.List.Flatten
+import Mathlib.Data.List.Induction
 import Mathlib.Data.List.Perm.Basic
 import Mathlib.Tactic.Linarith
 namespace NautilusVerif.Core
 
+/-! ### generic list lemmas -/
+
+theorem maskKeep_self (env : Env) (b : BId) (l : List Pt) (keep : Bool) :
+    maskKeep env b l l keep = l.filter (fun p => env.contains b p == keep) := by
+  unfold maskKeep
+  induction l with
+  | nil => rfl
+  | cons x xs ih =>
+    simp only [List.zip_cons_cons, List.filter_cons]
+    by_cases h : (env.contains b x == keep) = true
+    · simp [h, ih]
+    · simp [h, ih]
+
+theorem map_zipIdx_proj {α β : Type _} (l : List α) (k : Nat) (g : α × Nat → α) (h : α → β)
+    (hg : ∀ a i, h (g (a, i)) = h a) : ((l.zipIdx k).map g).map h = l.map h := by
+  induction l generalizing k with
+  | nil => rfl
+  | cons x xs ih => simp [hg, ih]
+
+theorem forall_mem_modify {α : Type _} (P : α → Prop) (f : α → α) (hf : ∀ a, P a → P (f a)) :
+    ∀ (l : List α) (i : Nat), (∀ a ∈ l, P a) → ∀ a ∈ l.modify i f, P a
+  | [], i, _ => by simp
+  | x :: xs, 0, h => by
+    simp only [List.modify_zero_cons, List.forall_mem_cons] at h ⊢
+    exact ⟨hf _ h.1, h.2⟩
+  | x :: xs, i+1, h => by
+    simp only [List.modify_succ_cons, List.forall_mem_cons] at h ⊢
+    exact ⟨h.1, forall_mem_modify P f hf xs i h.2⟩
+
+theorem map_modify_proj {α β : Type _} (h : α → β) (f : α → α) (g : β → β) (hfg : ∀ a, h (f a) = g (h a)) :
+    ∀ (l : List α) (i : Nat), (l.modify i f).map h = (l.map h).modify i g
+  | [], i => by simp
+  | x :: xs, 0 => by simp [hfg]
+  | x :: xs, i+1 => by simp [map_modify_proj h f g hfg xs i]
+
+/-! ### the view of a state that C01 talks about -/
+
+def view (l : List Shell) : List (BId × List Pt) := l.map (fun sh => (sh.bound, sh.pts))
+
+def Good (env : Env) (l : List (BId × List Pt)) : Prop :=
+  (∀ x ∈ l, ∀ p ∈ x.2, env.inCube p = true ∧ env.contains x.1 p = true) ∧
+  l.Pairwise (fun a c => ∀ p ∈ a.2, env.contains c.1 p = false)
+
+theorem bounds_eq (s : St) : bounds s = (view s.shells).map Prod.fst := by
+  simp [bounds, view, Function.comp_def]
+
+theorem allStored_eq (s : St) : allStored s = ((view s.shells).map Prod.snd).flatten := by
+  simp [allStored, view, Function.comp_def]
+
+theorem inShells_iff_aux (env : Env) (l : List Shell) :
+    (∀ shi ∈ l.zipIdx, ∀ p ∈ shi.1.pts, env.inCube p = true ∧ env.contains shi.1.bound p = true ∧
+      ∀ b ∈ (l.map (·.bound)).drop (shi.2 + 1), env.contains b p = false) ↔ Good env (view l) := by
+  induction l with
+  | nil => simp [Good, view]
+  | cons x xs ih =>
+    rw [List.zipIdx_cons']
+    simp only [List.forall_mem_cons, List.forall_mem_map, Prod.map, id, List.map_cons, List.drop_succ_cons,
+      List.drop_zero]
+    rw [ih]
+    simp only [Good, view, List.map_cons, List.forall_mem_cons, List.pairwise_cons, List.forall_mem_map]
+    constructor
+    · rintro ⟨h1, h2, h3⟩
+      exact ⟨⟨fun p hp => ⟨(h1 p hp).1, (h1 p hp).2.1⟩, h2⟩, fun c hc p hp => (h1 p hp).2.2 c hc, h3⟩
+    · rintro ⟨⟨h1, h2⟩, h3, h4⟩
+      exact ⟨fun p hp => ⟨(h1 p hp).1, (h1 p hp).2, fun c hc => h3 c hc p hp⟩, h2, h4⟩
+
+theorem inShells_iff (env : Env) (s : St) : InShells env s ↔ Good env (view s.shells) :=
+  inShells_iff_aux env s.shells
+
+/-! ### alignment (C03) -/
+
 theorem aligned_init (nBatch : Nat) : Aligned (init nBatch) := by
-  sorry
+  simp [Aligned, init]
+
+theorem forall_mem_map_zipIdx {α : Type _} (P : α → Prop) (l : List α) (k : Nat) (g : α × Nat → α)
+    (hg : ∀ a i, P a → P (g (a, i))) (h : ∀ a ∈ l, P a) : ∀ a ∈ (l.zipIdx k).map g, P a := by
+  intro a ha
+  obtain ⟨⟨a0, i⟩, hm, rfl⟩ := List.mem_map.1 ha
+  have : a0 ∈ l := by
+    have := List.mem_map_of_mem (f := Prod.fst) hm
+    rwa [List.zipIdx_map_fst] at this
+  exact hg a0 i (h a0 this)
+
+theorem length_flatten_replicate {α : Type _} (l : List α) (k : Nat) (f : α → List Pt) (g : Nat → Int) :
+    (((l.zipIdx k).map (fun ai => List.replicate (f ai.1).length (g ai.2))).flatten).length
+      = ((l.map f).flatten).length := by
+  induction l generalizing k with
+  | nil => rfl
+  | cons x xs ih =>
+    simp only [List.zipIdx_cons, List.map_cons, List.flatten_cons, List.length_append, List.length_replicate, ih]
+
+theorem aligned_setDiscard (s : St) (b : Bool) (h : Aligned s) : Aligned (setDiscard s b) := by
+  obtain ⟨h1, h2, h3, h4⟩ := h
+  refine ⟨?_, h2, h3, h4⟩
+  simp only [setDiscard, updateAll, List.forall_mem_map]
+  intro sh hsh
+  exact h1 sh hsh
+
+theorem aligned_endExploration (s : St) (b : Bool) (h : Aligned s) : Aligned (endExploration s b) := by
+  obtain ⟨h1, h2, h3, h4⟩ := h
+  unfold endExploration
+  apply aligned_setDiscard
+  refine ⟨?_, h2, h3, h4⟩
+  simp only [List.forall_mem_map]
+  intro sh hsh
+  exact h1 sh (List.mem_filter.1 hsh).1
+
+theorem aligned_addBoundOk (env : Env) (s : St) (b : BId) (h : Aligned s) : Aligned (addBoundOk env s b) := by
+  obtain ⟨h1, h2, h3, h4⟩ := h
+  simp only [addBoundOk]
+  split
+  · refine ⟨?_, h2, h3, h4⟩
+    simp only [List.forall_mem_append, List.mem_singleton, forall_eq]
+    exact ⟨h1, trivial, trivial⟩
+  · refine ⟨?_, ?_, ?_, ?_⟩
+    · apply forall_mem_map_zipIdx (fun sh : Shell => sh.ls = sh.pts ∧ sh.bs = sh.pts)
+      · intro a i ha
+        dsimp only
+        split <;> exact ha
+      · simp only [List.forall_mem_append, List.mem_singleton, forall_eq, List.forall_mem_map]
+        refine ⟨fun sh hsh => ?_, trivial, trivial⟩
+        rw [(h1 sh hsh).1, (h1 sh hsh).2]
+        exact ⟨rfl, rfl⟩
+    · dsimp only
+      congr 1
+      apply List.map_congr_left
+      intro sh hsh
+      rw [(h1 sh hsh).1]
+    · dsimp only
+      congr 1
+      apply List.map_congr_left
+      intro sh hsh
+      rw [(h1 sh hsh).2]
+    · dsimp only
+      exact length_flatten_replicate s.shells 0 (fun sh => maskKeep env b sh.pts sh.pts true) (fun i => (i : Int))
+
+/-! ### what `transferLoop` / `sampleRounds` do to the transfer bookkeeping -/
+
+def mark (P : List Nat) (l : List Int) : List Int :=
+  (l.zipIdx).map (fun (ti : Int × Nat) => if P.contains ti.2 then (-1 : Int) else ti.1)
+
+theorem getElem?_mark (P : List Nat) (l : List Int) (i : Nat) :
+    (mark P l)[i]? = (l[i]?).map (fun t => if P.contains i then (-1 : Int) else t) := by
+  simp only [mark, List.getElem?_map, List.getElem?_zipIdx, Nat.zero_add]
+  cases l[i]? <;> simp
+
+@[simp] theorem length_mark (P : List Nat) (l : List Int) : (mark P l).length = l.length := by
+  simp [mark]
+
+theorem mark_nil (l : List Int) : mark [] l = l := by
+  apply List.ext_getElem?
+  intro i
+  rw [getElem?_mark]
+  cases l[i]? <;> simp
+
+theorem mark_mark (P Q : List Nat) (l : List Int) : mark Q (mark P l) = mark (P ++ Q) l := by
+  apply List.ext_getElem?
+  intro i
+  simp only [getElem?_mark]
+  cases l[i]? with
+  | none => simp
+  | some t =>
+    by_cases hp : i ∈ P <;> by_cases hq : i ∈ Q <;> simp [hp, hq]
+
+/-- `P` is a duplicate-free list of positions of `l` holding non-negative entries -/
+def Picked (l : List Int) (P : List Nat) : Prop :=
+  P.Nodup ∧ ∀ j ∈ P, ∃ t, l[j]? = some t ∧ 0 ≤ t
+
+theorem picked_nil (l : List Int) : Picked l [] := ⟨List.nodup_nil, by simp⟩
+
+theorem picked_append {l : List Int} {P Q : List Nat} (hP : Picked l P) (hQ : Picked (mark P l) Q) :
+    Picked l (P ++ Q) := by
+  have key : ∀ j ∈ Q, j ∉ P ∧ ∃ t, l[j]? = some t ∧ 0 ≤ t := by
+    intro j hj
+    obtain ⟨t, ht, ht0⟩ := hQ.2 j hj
+    rw [getElem?_mark] at ht
+    cases hl : l[j]? with
+    | none => simp [hl] at ht
+    | some t0 =>
+      simp only [hl, Option.map_some, Option.some.injEq] at ht
+      by_cases hp : j ∈ P
+      · simp [hp] at ht; omega
+      · simp [hp] at ht; exact ⟨hp, t0, rfl, by omega⟩
+  refine ⟨List.nodup_append.2 ⟨hP.1, hQ.1, ?_⟩, ?_⟩
+  · intro a ha b hb hab
+    subst hab
+    exact (key a hb).1 ha
+  · intro j hj
+    rcases List.mem_append.1 hj with hj | hj
+    · exact hP.2 j hj
+    · exact (key j hj).2
+
+theorem mem_positionsWhere {α : Type _} (l : List α) (f : α → Bool) (j : Nat) :
+    j ∈ positionsWhere l f ↔ ∃ a, l[j]? = some a ∧ f a = true := by
+  simp only [positionsWhere, List.mem_map, List.mem_filter, List.mem_zipIdx_iff_getElem?]
+  constructor
+  · rintro ⟨⟨a, i⟩, ⟨h1, h2⟩, rfl⟩
+    exact ⟨a, h1, h2⟩
+  · rintro ⟨a, h1, h2⟩
+    exact ⟨(a, j), ⟨h1, h2⟩, rfl⟩
+
+theorem transferLoop_spec (env : Env) (earlier : List BId) (inShell kept : List Pt) :
+    ∀ (fuel sh : Nat) (tShell : List Int) (stream acc : List Nat) (tShell' : List Int) (stream' acc' : List Nat),
+      transferLoop env earlier inShell kept fuel sh tShell stream acc = some (tShell', stream', acc') →
+      ∃ P, acc' = acc ++ P ∧ Picked tShell P ∧ tShell' = mark P tShell := by
+  intro fuel
+  induction fuel with
+  | zero =>
+    intro sh tShell stream acc tShell' stream' acc' h
+    simp only [transferLoop, Option.some.injEq, Prod.mk.injEq] at h
+    obtain ⟨rfl, rfl, rfl⟩ := h
+    exact ⟨[], by simp, picked_nil _, (mark_nil _).symm⟩
+  | succ fuel ih =>
+    intro sh tShell stream acc tShell' stream' acc' h
+    simp only [transferLoop] at h
+    split at h
+    · exact absurd h (by simp)
+    · rename_i hc
+      obtain ⟨P', h1, h2, h3⟩ := ih _ _ _ _ _ _ _ h
+      simp only [Bool.or_eq_true, not_or, Bool.not_eq_true', decide_eq_true_eq, Bool.not_eq_false,
+        decide_eq_false_iff_not, Decidable.not_not, ne_eq] at hc
+      obtain ⟨⟨⟨_, hall⟩, hnd⟩, _⟩ := hc
+      have hpick : Picked tShell (stream.take (min (positionsWhere tShell (fun t => t == (sh : Int))).length
+          (inShell.filter (fun p => assoc env earlier p == (sh : Int))).length)) := by
+        refine ⟨hnd, fun j hj => ?_⟩
+        have := List.all_eq_true.1 hall j hj
+        rw [List.contains_iff_mem] at this
+        obtain ⟨a, ha, hsh⟩ := (mem_positionsWhere _ _ _).1 this
+        have : a = (sh : Int) := by simpa using hsh
+        exact ⟨a, ha, by omega⟩
+      refine ⟨_ ++ P', by rw [h1, List.append_assoc], picked_append hpick h2, ?_⟩
+      rw [h3]
+      exact mark_mark _ _ _
+
+theorem sampleRounds_spec (env : Env) (bounds : List BId) (index : Nat) (useT : Bool) (nBatch : Nat) :
+    ∀ (rounds : List Round) (nS nB : Nat) (pts : List Pt) (tShell : List Int) (stream idxT : List Nat)
+      (res : List Pt × Nat × List Nat × List Int),
+      sampleRounds env bounds index useT nBatch rounds nS nB pts tShell stream idxT = some res →
+      ∃ ks P, res.1 = pts ++ ks ∧ ks.Sublist ((rounds.map (·.props)).flatten) ∧
+        (∀ p ∈ ks, ∀ b ∈ bounds.drop (index + 1), env.contains b p = false) ∧
+        res.2.2.1 = idxT ++ P ∧ Picked tShell P ∧ res.2.2.2 = mark P tShell ∧ (useT = false → P = []) := by
+  intro rounds
+  induction rounds with
+  | nil =>
+    intro nS nB pts tShell stream idxT res h
+    simp only [sampleRounds] at h
+    split at h
+    · obtain rfl := Option.some.inj h
+      exact ⟨[], [], by simp, by simp, by simp, by simp, picked_nil _, (mark_nil _).symm, fun _ => rfl⟩
+    · exact absurd h (by simp)
+  | cons r rs ih =>
+    intro nS nB pts tShell stream idxT res h
+    simp only [sampleRounds] at h
+    split at h
+    · exact absurd h (by simp)
+    split at h
+    · exact absurd h (by simp)
+    have hin : ∀ p ∈ r.props.filter (fun p => (bounds.drop (index + 1)).all (fun b => !env.contains b p)),
+        ∀ b ∈ bounds.drop (index + 1), env.contains b p = false := by
+      intro p hp b hb
+      have h1 := (List.mem_filter.1 hp).2
+      have h2 := List.all_eq_true.1 h1 b hb
+      simpa using h2
+    split at h
+    · split at h
+      · exact absurd h (by simp)
+      · rename_i tShell' stream' picked hT
+        split at h
+        · exact absurd h (by simp)
+        split at h
+        · exact absurd h (by simp)
+        rename_i hk _
+        have hk' := Decidable.not_not.1 hk
+        obtain ⟨ks, P, e1, e2, e3, e4, e5, e6, e7⟩ := ih _ _ _ _ _ _ _ h
+        obtain ⟨P0, a1, a2, a3⟩ := transferLoop_spec _ _ _ _ _ _ _ _ _ _ _ _ hT
+        simp only [List.nil_append] at a1
+        subst a1 a3
+        refine ⟨r.kept ++ ks, picked ++ P, by rw [e1, List.append_assoc], ?_, ?_, by rw [e4, List.append_assoc],
+          picked_append a2 e5, by rw [e6, mark_mark], ?_⟩
+        · simp only [List.map_cons, List.flatten_cons]
+          refine List.Sublist.append ?_ e2
+          rw [hk']
+          exact List.filter_sublist.trans List.filter_sublist
+        · intro p hp
+          rcases List.mem_append.1 hp with hp | hp
+          · rw [hk'] at hp
+            exact hin p (List.mem_filter.1 hp).1
+          · exact e3 p hp
+        · intro hu
+          have hU : (useT && !tShell.isEmpty) = true := by assumption
+          simp [hu] at hU
+    · split at h
+      · exact absurd h (by simp)
+      rename_i hcond hk
+      have hk' := Decidable.not_not.1 hk
+      obtain ⟨ks, P, e1, e2, e3, e4, e5, e6, e7⟩ := ih _ _ _ _ _ _ _ h
+      refine ⟨r.kept ++ ks, P, by rw [e1, List.append_assoc], ?_, ?_, e4, e5, e6, e7⟩
+      · simp only [List.map_cons, List.flatten_cons]
+        refine List.Sublist.append ?_ e2
+        rw [hk']
+        exact List.filter_sublist
+      · intro p hp
+        rcases List.mem_append.1 hp with hp | hp
+        · rw [hk'] at hp
+          exact hin p hp
+        · exact e3 p hp
+
+/-! ### `add_samples` -/
+
+/-- the state `addSamples` returns in its `.ok` branch -/
+def addSamplesRes (s : St) (shellArg : Option Nat) (points : List Pt) (nBound : Nat) (idxT' : List Nat)
+    (tShell' : List Int) : St :=
+  let last := s.shells.length - 1
+  let idx := shellArg.getD last
+  let useT := shellArg.isNone && !s.tShell.isEmpty
+  let shells1 :=
+    if useT && !idxT'.isEmpty then
+      s.shells.modify last (fun sh => { sh with
+        pts := sh.pts ++ idxT'.map (fun j => getD s.tPts j 0)
+        ls := sh.ls ++ idxT'.map (fun j => getD s.tLs j 0)
+        bs := sh.bs ++ idxT'.map (fun j => getD s.tBs j 0) })
+    else s.shells
+  let shells2 := shells1.modify idx (fun sh => { sh with
+    nSample := sh.nSample + nBound
+    pts := sh.pts ++ points, ls := sh.ls ++ points, bs := sh.bs ++ points })
+  updateShellInfo { s with shells := shells2, tShell := tShell', nLike := s.nLike + points.length } idx
+
+theorem addSamples_cases (env : Env) (s : St) (shellArg : Option Nat) (rounds : List Round) (idxT : List Nat) :
+    (addSamples env s shellArg rounds idxT).1 = s ∨
+    ∃ points nBound idxT' tShell',
+      s.shells ≠ [] ∧ shellArg.getD (s.shells.length - 1) < s.shells.length ∧
+      sampleRounds env (s.shells.map (·.bound)) (shellArg.getD (s.shells.length - 1))
+        (shellArg.isNone && !s.tShell.isEmpty) s.nBatch rounds 0 0 [] s.tShell idxT []
+        = some (points, nBound, idxT', tShell') ∧
+      (addSamples env s shellArg rounds idxT).1 = addSamplesRes s shellArg points nBound idxT' tShell' := by
+  unfold addSamples
+  split
+  · exact Or.inl rfl
+  rename_i hne
+  simp only []
+  split
+  · exact Or.inl rfl
+  rename_i hlt
+  split
+  · exact Or.inl rfl
+  · rename_i points nBound idxT' tShell' hsr
+    split
+    · exact Or.inl rfl
+    · refine Or.inr ⟨points, nBound, idxT', tShell', ?_, by omega, hsr, rfl⟩
+      intro h0
+      simp [h0] at hne
+
+theorem aligned_addSamplesRes (s : St) (shellArg : Option Nat) (points : List Pt) (nBound : Nat)
+    (idxT' : List Nat) (tShell' : List Int) (h : Aligned s) (hl : tShell'.length = s.tShell.length) :
+    Aligned (addSamplesRes s shellArg points nBound idxT' tShell') := by
+  obtain ⟨h1, h2, h3, h4⟩ := h
+  refine ⟨?_, h2, h3, hl.trans h4⟩
+  simp only [addSamplesRes, updateShellInfo]
+  apply forall_mem_modify (fun sh : Shell => sh.ls = sh.pts ∧ sh.bs = sh.pts)
+  · intro a ha; exact ha
+  apply forall_mem_modify (fun sh : Shell => sh.ls = sh.pts ∧ sh.bs = sh.pts)
+  · intro a ha
+    dsimp only
+    rw [ha.1, ha.2]
+    exact ⟨rfl, rfl⟩
+  split
+  · apply forall_mem_modify (fun sh : Shell => sh.ls = sh.pts ∧ sh.bs = sh.pts)
+    · intro a ha
+      dsimp only
+      rw [ha.1, ha.2, h2, h3]
+      exact ⟨rfl, rfl⟩
+    · exact h1
+  · exact h1
 
 /-- alignment of the parallel arrays is preserved by every operation, whatever the oracles return -/
 theorem aligned_step (env : Env) (s : St) (op : Op) (h : Aligned s) : Aligned (step env s op).1 := by
-  sorry
+  cases op with
+  | addBound r =>
+    cases r with
+    | none =>
+      simp only [step, addBound]
+      split <;> exact h
+    | some b => exact aligned_addBoundOk env s b h
+  | addSamples sh rs it =>
+    simp only [step]
+    rcases addSamples_cases env s sh rs it with h0 | ⟨points, nBound, idxT', tShell', _, _, hsr, hres⟩
+    · rw [h0]; exact h
+    · rw [hres]
+      obtain ⟨ks, P, _, _, _, _, _, e6, _⟩ := sampleRounds_spec _ _ _ _ _ _ _ _ _ _ _ _ _ hsr
+      apply aligned_addSamplesRes _ _ _ _ _ _ h
+      simp only at e6
+      rw [e6, length_mark]
+  | endExploration d => exact aligned_endExploration s d h
+  | setDiscard b => exact aligned_setDiscard s b h
 
 theorem aligned_exec (env : Env) (s : St) (ops : List Op) (h : Aligned s) : Aligned (exec env s ops) := by
-  sorry
+  induction ops generalizing s with
+  | nil => exact h
+  | cons op ops ih => exact ih _ (aligned_step env s op h)
 
-theorem inv01_init (env : Env) (nBatch : Nat) : Inv01 env (init nBatch) := by
-  sorry
+/-! ### `shell_association` and disjointness -/
 
-theorem inv01_step (env : Env) (s : St) (op : Op) (ha : Aligned s) (h : Inv01 env s) (hop : OpOK env s op) :
-    Inv01 env (step env s op).1 := by
-  sorry
+theorem assoc_snoc (env : Env) (bs : List BId) (b : BId) (p : Pt) :
+    assoc env (bs ++ [b]) p = if env.contains b p then (bs.length : Int) else assoc env bs p := by
+  unfold assoc
+  rw [List.zipIdx_append]
+  simp only [List.zipIdx_cons, List.zipIdx_nil, List.reverse_append, List.reverse_cons, List.reverse_nil,
+    List.nil_append, List.singleton_append, List.find?_cons, Nat.zero_add]
+  by_cases hc : env.contains b p = true
+  · simp [hc]
+  · simp [hc]
 
-theorem inv01_exec (env : Env) (s : St) (ops : List Op) (ha : Aligned s) (h : Inv01 env s) (hw : WF env s ops) :
-    Inv01 env (exec env s ops) := by
-  sorry
+theorem assoc_of_good (env : Env) : ∀ (l : List (BId × List Pt)), Good env l → ∀ (i : Nat) (x : BId × List Pt),
+    l[i]? = some x → ∀ p ∈ x.2, assoc env (l.map Prod.fst) p = (i : Int) := by
+  intro l
+  induction l using List.reverseRecOn with
+  | nil => intro _ i x h; simp at h
+  | append_singleton l a ih =>
+    intro hg i x hx p hp
+    rw [List.map_append, List.map_singleton, assoc_snoc]
+    have hgl : Good env l := ⟨fun y hy => hg.1 y (List.mem_append_left _ hy), (List.pairwise_append.1 hg.2).1⟩
+    by_cases hi : i < l.length
+    · rw [List.getElem?_append_left hi] at hx
+      have hxl : x ∈ l := List.mem_of_getElem? hx
+      have hc : env.contains a.1 p = false := (List.pairwise_append.1 hg.2).2.2 x hxl a (by simp) p hp
+      simp only [hc, Bool.false_eq_true, if_false]
+      exact ih hgl i x hx p hp
+    · have hil : i = l.length := by
+        have := (List.getElem?_eq_some_iff.1 hx).1
+        simp at this; omega
+      subst hil
+      simp at hx
+      subst hx
+      have hc := (hg.1 a (by simp) p hp).2
+      simp [hc]
 
 /-- `shell_association` of a stored sample is the shell it is stored under -/
 theorem assoc_of_inShells (env : Env) (s : St) (h : InShells env s) (sh : Shell) (i : Nat)
     (hi : (sh, i) ∈ s.shells.zipIdx) (p : Pt) (hp : p ∈ sh.pts) : assoc env (bounds s) p = (i : Int) := by
-  sorry
+  rw [bounds_eq]
+  have hg := (inShells_iff env s).1 h
+  have hi' : s.shells[i]? = some sh := List.mem_zipIdx_iff_getElem?.1 hi
+  refine assoc_of_good env _ hg i (sh.bound, sh.pts) ?_ p hp
+  simp [view, List.getElem?_map, hi']
 
 /-- shells partition the stored samples -/
 theorem shells_disjoint (s : St) (h : NoDup s) (i k : Nat) (hik : i ≠ k) (a b : Shell)
     (ha : s.shells[i]? = some a) (hb : s.shells[k]? = some b) : ∀ p ∈ a.pts, p ∉ b.pts := by
-  sorry
+  have hn : (allStored s).Nodup := List.Nodup.of_append_left h
+  unfold allStored at hn
+  have hp := (List.nodup_flatten.1 hn).2
+  rw [List.pairwise_iff_getElem] at hp
+  obtain ⟨hi, rfl⟩ := List.getElem?_eq_some_iff.1 ha
+  obtain ⟨hk, rfl⟩ := List.getElem?_eq_some_iff.1 hb
+  rcases Nat.lt_or_gt_of_ne hik with hlt | hlt
+  · have := hp i k (by simpa using hi) (by simpa using hk) hlt
+    simp only [List.getElem_map] at this
+    intro p hp1 hp2
+    exact this hp1 hp2
+  · have := hp k i (by simpa using hk) (by simpa using hi) hlt
+    simp only [List.getElem_map] at this
+    intro p hp1 hp2
+    exact this hp2 hp1
+
+/-! ### C01 -/
+
+theorem inv01_init (env : Env) (nBatch : Nat) : Inv01 env (init nBatch) := by
+  simp [Inv01, InShells, TransfersInLast, NoDup, init, allStored, unusedTransfers]
+
+/-- while exploring, transfer candidates only exist once there is a bound -/
+def TEmpty (s : St) : Prop := s.explored = false → s.shells = [] → s.tShell = []
+
+theorem inv01_iff (env : Env) (s : St) : Inv01 env s ↔
+    Good env (view s.shells) ∧
+    (s.explored = false → ∀ tj ∈ s.tPts.zip s.tShell, 0 ≤ tj.2 →
+      env.inCube tj.1 = true ∧ ∀ b ∈ ((view s.shells).map Prod.fst).getLast?, env.contains b tj.1 = true) ∧
+    (((view s.shells).map Prod.snd).flatten ++ (if s.explored then [] else unusedTransfers s)).Nodup := by
+  unfold Inv01 TransfersInLast NoDup
+  rw [inShells_iff, bounds_eq, allStored_eq]
+
+theorem inv01_congr (env : Env) {s s' : St} (hv : view s'.shells = view s.shells) (h1 : s'.tPts = s.tPts)
+    (h2 : s'.tShell = s.tShell) (h3 : s'.explored = s.explored) (h : Inv01 env s) : Inv01 env s' := by
+  have hu : unusedTransfers s' = unusedTransfers s := by unfold unusedTransfers; rw [h1, h2]
+  rw [inv01_iff] at h ⊢
+  rw [hv, h1, h2, h3, hu]
+  exact h
+
+theorem good_sublist {env : Env} {l l' : List (BId × List Pt)} (h : l'.Sublist l) (hg : Good env l) :
+    Good env l' :=
+  ⟨fun x hx => hg.1 x (h.subset hx), hg.2.sublist h⟩
+
+theorem view_setDiscard (s : St) (b : Bool) : view (setDiscard s b).shells = view s.shells := by
+  simp [setDiscard, updateAll, view, List.map_map, Function.comp_def]
+
+theorem inv01_setDiscard (env : Env) (s : St) (b : Bool) (h : Inv01 env s) : Inv01 env (setDiscard s b) :=
+  inv01_congr env (view_setDiscard s b) rfl rfl rfl h
+
+theorem inv01_endExploration (env : Env) (s : St) (b : Bool) (h : Inv01 env s) :
+    Inv01 env (endExploration s b) := by
+  unfold endExploration
+  apply inv01_setDiscard
+  rw [inv01_iff] at h ⊢
+  obtain ⟨hg, _, hn⟩ := h
+  have hsub : (view ((s.shells.filter (fun sh => sh.nShown != 0)).map
+      (fun sh => { sh with nSampleExp := sh.nSample, endExp := sh.pts.length }))).Sublist (view s.shells) := by
+    have : view ((s.shells.filter (fun sh => sh.nShown != 0)).map
+        (fun sh => { sh with nSampleExp := sh.nSample, endExp := sh.pts.length }))
+        = view (s.shells.filter (fun sh => sh.nShown != 0)) := by
+      simp [view, List.map_map, Function.comp_def]
+    rw [this]
+    exact List.Sublist.map _ List.filter_sublist
+  refine ⟨good_sublist hsub hg, fun h0 => absurd h0 (by simp), ?_⟩
+  simp only [if_true, List.append_nil]
+  exact List.Nodup.sublist (List.Sublist.flatten (List.Sublist.map _ hsub)) (List.Nodup.of_append_left hn)
+
+/-! #### `add_bound` -/
+
+theorem unused_all_nonneg (ps : List Pt) (ts : List Int) (hl : ts.length = ps.length) (h : ∀ t ∈ ts, 0 ≤ t) :
+    ((ps.zip ts).filter (fun tj => decide (0 ≤ tj.2))).map (·.1) = ps := by
+  rw [List.filter_eq_self.2]
+  · exact List.map_fst_zip (by omega)
+  · rintro ⟨p, t⟩ hm
+    simpa using h t (List.of_mem_zip hm).2
+
+theorem addBoundOk_empty (env : Env) (s : St) (b : BId) (h : s.shells = []) :
+    addBoundOk env s b = { s with shells := [{ bound := b }] } := by
+  simp [addBoundOk, h]
+
+theorem addBoundOk_nonempty (env : Env) (s : St) (b : BId) (h : s.shells ≠ []) :
+    view (addBoundOk env s b).shells
+      = (view s.shells).map (fun x => (x.1, x.2.filter (fun p => env.contains b p == false))) ++ [(b, [])] ∧
+    (addBoundOk env s b).tPts
+      = ((view s.shells).map (fun x => x.2.filter (fun p => env.contains b p == true))).flatten ∧
+    (∀ t ∈ (addBoundOk env s b).tShell, 0 ≤ t) ∧
+    (addBoundOk env s b).explored = s.explored := by
+  have he : s.shells.isEmpty = false := by
+    cases hs : s.shells with
+    | nil => exact absurd hs h
+    | cons _ _ => rfl
+  simp only [addBoundOk, he, Bool.false_eq_true, if_false]
+  refine ⟨?_, ?_, ?_, trivial⟩
+  · unfold view
+    rw [map_zipIdx_proj]
+    · simp [List.map_map, Function.comp_def, maskKeep_self]
+    · intro a i
+      dsimp only
+      split <;> rfl
+  · simp [view, List.map_map, Function.comp_def, maskKeep_self]
+  · intro t ht
+    obtain ⟨l, hl, htl⟩ := List.mem_flatten.1 ht
+    obtain ⟨⟨a, i⟩, _, rfl⟩ := List.mem_map.1 hl
+    rw [(List.mem_replicate.1 htl).2]
+    exact Int.natCast_nonneg i
+
+theorem inv01_addBoundOk (env : Env) (s : St) (b : BId) (ha : Aligned s) (h : Inv01 env s) (hte : TEmpty s) :
+    Inv01 env (addBoundOk env s b) := by
+  by_cases hs : s.shells = []
+  · -- first bound
+    rw [addBoundOk_empty env s b hs]
+    rw [inv01_iff] at h ⊢
+    obtain ⟨_, _, hn⟩ := h
+    refine ⟨?_, ?_, ?_⟩
+    · simp [Good, view]
+    · intro h0
+      have ht : s.tShell = [] := hte h0 hs
+      simp [ht]
+    · simpa [hs, view, unusedTransfers] using hn
+  · obtain ⟨hv, htp, hts, hex⟩ := addBoundOk_nonempty env s b hs
+    have hal := aligned_addBoundOk env s b ha
+    rw [inv01_iff] at h ⊢
+    obtain ⟨hg, _, hn⟩ := h
+    have hA : (((view s.shells).map Prod.snd).flatten).Nodup := List.Nodup.of_append_left hn
+    refine ⟨?_, ?_, ?_⟩
+    · rw [hv]
+      refine ⟨?_, ?_⟩
+      · intro x hx p hp
+        rcases List.mem_append.1 hx with hx | hx
+        · obtain ⟨y, hy, rfl⟩ := List.mem_map.1 hx
+          exact hg.1 y hy p (List.mem_filter.1 hp).1
+        · simp only [List.mem_singleton] at hx
+          subst hx
+          simp at hp
+      · rw [List.pairwise_append]
+        refine ⟨?_, by simp, ?_⟩
+        · rw [List.pairwise_map]
+          exact hg.2.imp (fun hac p hp => hac p (List.mem_filter.1 hp).1)
+        · intro a ha' c hc p hp
+          simp only [List.mem_singleton] at hc
+          subst hc
+          obtain ⟨y, hy, rfl⟩ := List.mem_map.1 ha'
+          simpa using (List.mem_filter.1 hp).2
+    · intro _ tj htj _
+      have h1 : tj.1 ∈ (addBoundOk env s b).tPts := (List.of_mem_zip (a := tj.1) (b := tj.2) htj).1
+      rw [htp] at h1
+      obtain ⟨l, hl, hpl⟩ := List.mem_flatten.1 h1
+      obtain ⟨y, hy, rfl⟩ := List.mem_map.1 hl
+      obtain ⟨hpy, hc⟩ := List.mem_filter.1 hpl
+      refine ⟨(hg.1 y hy _ hpy).1, ?_⟩
+      rw [hv]
+      simp only [List.map_append, List.map_cons, List.map_nil, List.getLast?_append, List.getLast?_singleton,
+        Option.some_or, Option.mem_def, Option.some.injEq, forall_eq']
+      simpa using hc
+    · have hu : unusedTransfers (addBoundOk env s b) = (addBoundOk env s b).tPts :=
+        unused_all_nonneg _ _ hal.2.2.2 hts
+      rw [hu, hv, htp, hex]
+      have e1 : (List.map Prod.snd ((view s.shells).map
+          (fun x => (x.1, x.2.filter (fun p => env.contains b p == false))) ++ [(b, [])])).flatten
+          = (((view s.shells).map Prod.snd).flatten).filter (fun p => !(env.contains b p == true)) := by
+        have : (fun p => !(env.contains b p == true)) = (fun p => env.contains b p == false) := by
+          funext p; cases env.contains b p <;> rfl
+        rw [this]
+        simp [List.filter_flatten, List.map_map, Function.comp_def]
+      have e2 : ((view s.shells).map (fun x => x.2.filter (fun p => env.contains b p == true))).flatten
+          = (((view s.shells).map Prod.snd).flatten).filter (fun p => env.contains b p == true) := by
+        simp [List.filter_flatten, List.map_map, Function.comp_def]
+      rw [e1, e2]
+      split
+      · rw [List.append_nil]
+        exact hA.sublist List.filter_sublist
+      · exact ((List.perm_append_comm.trans (List.filter_append_perm _ _)).nodup_iff).2 hA
+
+/-! #### `add_samples` -/
+
+theorem good_cons (env : Env) (x : BId × List Pt) (l : List (BId × List Pt)) : Good env (x :: l) ↔
+    (∀ p ∈ x.2, env.inCube p = true ∧ env.contains x.1 p = true) ∧
+    (∀ c ∈ l, ∀ p ∈ x.2, env.contains c.1 p = false) ∧ Good env l := by
+  simp only [Good, List.forall_mem_cons, List.pairwise_cons]
+  tauto
+
+theorem map_fst_modify (extra : List Pt) (l : List (BId × List Pt)) (i : Nat) :
+    (l.modify i (fun x => (x.1, x.2 ++ extra))).map Prod.fst = l.map Prod.fst := by
+  rw [map_modify_proj Prod.fst _ id, List.modify_id]
+  intro a; rfl
+
+theorem modify_append_nil (l : List (BId × List Pt)) (i : Nat) :
+    l.modify i (fun x => (x.1, x.2 ++ [])) = l := by
+  have : (fun x : BId × List Pt => (x.1, x.2 ++ [])) = id := by funext x; simp
+  rw [this, List.modify_id]
+
+theorem good_modify (env : Env) (extra : List Pt) : ∀ (l : List (BId × List Pt)) (i : Nat), Good env l →
+    (∀ p ∈ extra, env.inCube p = true ∧ (∀ b, (l.map Prod.fst)[i]? = some b → env.contains b p = true) ∧
+      ∀ b ∈ (l.map Prod.fst).drop (i + 1), env.contains b p = false) →
+    Good env (l.modify i (fun x => (x.1, x.2 ++ extra)))
+  | [], i, hg, _ => by simpa using hg
+  | x :: xs, 0, hg, he => by
+    rw [List.modify_zero_cons]
+    rw [good_cons] at hg ⊢
+    obtain ⟨h1, h2, h3⟩ := hg
+    refine ⟨?_, ?_, h3⟩
+    · intro p hp
+      rcases List.mem_append.1 hp with hp | hp
+      · exact h1 p hp
+      · exact ⟨(he p hp).1, (he p hp).2.1 x.1 (by simp)⟩
+    · intro c hc p hp
+      rcases List.mem_append.1 hp with hp | hp
+      · exact h2 c hc p hp
+      · refine (he p hp).2.2 c.1 ?_
+        simp only [Nat.zero_add, List.map_cons, List.drop_succ_cons, List.drop_zero]
+        exact List.mem_map_of_mem hc
+  | x :: xs, i+1, hg, he => by
+    rw [List.modify_succ_cons]
+    rw [good_cons] at hg ⊢
+    obtain ⟨h1, h2, h3⟩ := hg
+    refine ⟨h1, ?_, good_modify env extra xs i h3 ?_⟩
+    · intro c hc p hp
+      have hm : c.1 ∈ (xs.modify i (fun x => (x.1, x.2 ++ extra))).map Prod.fst := List.mem_map_of_mem hc
+      rw [map_fst_modify] at hm
+      obtain ⟨c0, hc0, hc1⟩ := List.mem_map.1 hm
+      rw [← hc1]
+      exact h2 c0 hc0 p hp
+    · intro p hp
+      obtain ⟨e1, e2, e3⟩ := he p hp
+      exact ⟨e1, by simpa using e2, by simpa using e3⟩
+
+theorem flatten_modify_perm (extra : List Pt) : ∀ (l : List (BId × List Pt)) (i : Nat), i < l.length →
+    (((l.modify i (fun x => (x.1, x.2 ++ extra))).map Prod.snd).flatten).Perm ((l.map Prod.snd).flatten ++ extra)
+  | [], i, h => by simp at h
+  | x :: xs, 0, _ => by
+    simp only [List.modify_zero_cons, List.map_cons, List.flatten_cons, List.append_assoc]
+    exact List.Perm.append_left _ List.perm_append_comm
+  | x :: xs, i+1, h => by
+    simp only [List.modify_succ_cons, List.map_cons, List.flatten_cons, List.append_assoc]
+    exact List.Perm.append_left _ (flatten_modify_perm extra xs i (by simpa using h))
+
+/-- `unusedTransfers` as a function of the two arrays -/
+def unusedL (ps : List Pt) (ts : List Int) : List Pt :=
+  ((ps.zip ts).filter (fun tj => decide (0 ≤ tj.2))).map (·.1)
+
+theorem unusedL_cons (p : Pt) (ps : List Pt) (t : Int) (ts : List Int) :
+    unusedL (p :: ps) (t :: ts) = if 0 ≤ t then p :: unusedL ps ts else unusedL ps ts := by
+  simp only [unusedL, List.zip_cons_cons, List.filter_cons]
+  split <;> simp_all
+
+theorem unusedL_subset (ps : List Pt) (ts : List Int) : ∀ p ∈ unusedL ps ts, p ∈ ps := by
+  intro p hp
+  obtain ⟨⟨q, t⟩, hm, rfl⟩ := List.mem_map.1 hp
+  exact (List.of_mem_zip (List.mem_filter.1 hm).1).1
+
+theorem mark_singleton_zero (t : Int) (ts : List Int) : mark [0] (t :: ts) = (-1) :: ts := by
+  apply List.ext_getElem?
+  intro i
+  rw [getElem?_mark]
+  cases i with
+  | zero => simp
+  | succ i => cases h : ts[i]? <;> simp [h]
+
+theorem mark_singleton_succ (j : Nat) (t : Int) (ts : List Int) : mark [j + 1] (t :: ts) = t :: mark [j] ts := by
+  apply List.ext_getElem?
+  intro i
+  rw [getElem?_mark]
+  cases i with
+  | zero => simp
+  | succ i =>
+    simp only [List.getElem?_cons_succ, getElem?_mark]
+    cases h : ts[i]? <;> simp
+
+theorem unusedL_mark_one : ∀ (ps : List Pt) (ts : List Int) (j : Nat) (t : Int), ts[j]? = some t → 0 ≤ t →
+    j < ps.length → (unusedL ps ts).Perm (getD ps j 0 :: unusedL ps (mark [j] ts))
+  | [], _, j, _, _, _, hl => by simp at hl
+  | _ :: _, [], j, _, hj, _, _ => by simp at hj
+  | p :: ps, t0 :: ts, 0, t, hj, h0, _ => by
+    simp only [List.getElem?_cons_zero, Option.some.injEq] at hj
+    subst hj
+    rw [mark_singleton_zero, unusedL_cons, unusedL_cons]
+    simp [h0, getD]
+  | p :: ps, t0 :: ts, j+1, t, hj, h0, hl => by
+    simp only [List.getElem?_cons_succ] at hj
+    have ih := unusedL_mark_one ps ts j t hj h0 (by simpa using hl)
+    rw [mark_singleton_succ, unusedL_cons, unusedL_cons]
+    have hg : getD (p :: ps) (j + 1) 0 = getD ps j 0 := by simp [getD]
+    rw [hg]
+    split
+    · exact (List.Perm.cons p ih).trans (List.Perm.swap _ _ _)
+    · exact ih
+
+theorem unusedL_mark_perm (ps : List Pt) : ∀ (P : List Nat) (ts : List Int), ts.length = ps.length →
+    Picked ts P → (unusedL ps ts).Perm (P.map (fun j => getD ps j 0) ++ unusedL ps (mark P ts))
+  | [], ts, _, _ => by simp [mark_nil]
+  | j :: P, ts, hl, hP => by
+    obtain ⟨t, ht, h0⟩ := hP.2 j (by simp)
+    have hjl : j < ps.length := by rw [← hl]; exact (List.getElem?_eq_some_iff.1 ht).1
+    have hnd := List.nodup_cons.1 hP.1
+    have hP' : Picked (mark [j] ts) P := by
+      refine ⟨hnd.2, fun j' hj' => ?_⟩
+      obtain ⟨t', ht', h0'⟩ := hP.2 j' (List.mem_cons_of_mem _ hj')
+      refine ⟨t', ?_, h0'⟩
+      have hne : j' ≠ j := fun h => hnd.1 (h ▸ hj')
+      rw [getElem?_mark, ht']
+      simp [hne]
+    have ih := unusedL_mark_perm ps P (mark [j] ts) (by simpa using hl) hP'
+    rw [mark_mark] at ih
+    simp only [List.singleton_append] at ih
+    simp only [List.map_cons, List.cons_append]
+    exact (unusedL_mark_one ps ts j t ht h0 hjl).trans (List.Perm.cons _ ih)
+
+theorem mem_zip_mark {ps : List Pt} {ts : List Int} {P : List Nat} {tj : Pt × Int}
+    (h : tj ∈ ps.zip (mark P ts)) (h0 : 0 ≤ tj.2) : tj ∈ ps.zip ts := by
+  obtain ⟨i, hi⟩ := List.mem_iff_getElem?.1 h
+  rw [List.getElem?_zip_eq_some, getElem?_mark] at hi
+  obtain ⟨hi1, hi2⟩ := hi
+  rw [List.mem_iff_getElem?]
+  refine ⟨i, List.getElem?_zip_eq_some.2 ⟨hi1, ?_⟩⟩
+  cases hl : ts[i]? with
+  | none => simp [hl] at hi2
+  | some t0 =>
+    simp only [hl, Option.map_some, Option.some.injEq] at hi2
+    by_cases hp : i ∈ P
+    · simp [hp] at hi2; omega
+    · simp [hp] at hi2; rw [hi2]
+
+theorem moved_mem (s : St) (ha : Aligned s) {P : List Nat} (hP : Picked s.tShell P) {p : Pt}
+    (hp : p ∈ P.map (fun j => getD s.tPts j 0)) : ∃ t, (p, t) ∈ s.tPts.zip s.tShell ∧ 0 ≤ t := by
+  obtain ⟨j, hj, rfl⟩ := List.mem_map.1 hp
+  obtain ⟨t, ht, h0⟩ := hP.2 j hj
+  have hjl : j < s.tShell.length := (List.getElem?_eq_some_iff.1 ht).1
+  have hjp : j < s.tPts.length := by rw [← ha.2.2.2]; exact hjl
+  refine ⟨t, ?_, h0⟩
+  rw [List.mem_iff_getElem?]
+  refine ⟨j, ?_⟩
+  rw [List.getElem?_zip_eq_some]
+  exact ⟨by simp [getD, List.getElem?_eq_getElem hjp], ht⟩
+
+theorem view_addSamplesRes (s : St) (shellArg : Option Nat) (points : List Pt) (nBound : Nat) (idxT' : List Nat)
+    (tShell' : List Int) (hM : (shellArg.isNone && !s.tShell.isEmpty) = false → idxT' = []) :
+    view (addSamplesRes s shellArg points nBound idxT' tShell').shells
+      = ((view s.shells).modify (s.shells.length - 1)
+            (fun x => (x.1, x.2 ++ idxT'.map (fun j => getD s.tPts j 0)))).modify
+          (shellArg.getD (s.shells.length - 1)) (fun x => (x.1, x.2 ++ points)) := by
+  simp only [addSamplesRes, updateShellInfo]
+  unfold view
+  rw [map_modify_proj (fun sh : Shell => (sh.bound, sh.pts)) _ id, List.modify_id]
+  swap
+  · intro a; rfl
+  rw [map_modify_proj (fun sh : Shell => (sh.bound, sh.pts)) _ (fun x => (x.1, x.2 ++ points))]
+  swap
+  · intro a; rfl
+  congr 1
+  split
+  · rw [map_modify_proj (fun sh : Shell => (sh.bound, sh.pts)) _
+      (fun x => (x.1, x.2 ++ idxT'.map (fun j => getD s.tPts j 0)))]
+    intro a; rfl
+  · rename_i hc
+    have : idxT' = [] := by
+      by_cases hu : (shellArg.isNone && !s.tShell.isEmpty) = true
+      · simpa [hu] using hc
+      · exact hM (by simpa using hu)
+    subst this
+    simp only [List.map_nil]
+    rw [modify_append_nil]
+
+theorem inv01_addSamplesRes (env : Env) (s : St) (shellArg : Option Nat) (rounds : List Round) (idxT : List Nat)
+    (points : List Pt) (nBound : Nat) (idxT' : List Nat) (tShell' : List Int)
+    (ha : Aligned s) (h : Inv01 env s) (hop : OpOK env s (.addSamples shellArg rounds idxT))
+    (hph : TransferPhase s (.addSamples shellArg rounds idxT))
+    (hlt : shellArg.getD (s.shells.length - 1) < s.shells.length)
+    (hsr : sampleRounds env (s.shells.map (·.bound)) (shellArg.getD (s.shells.length - 1))
+        (shellArg.isNone && !s.tShell.isEmpty) s.nBatch rounds 0 0 [] s.tShell idxT []
+        = some (points, nBound, idxT', tShell')) :
+    Inv01 env (addSamplesRes s shellArg points nBound idxT' tShell') := by
+  obtain ⟨ks, P, e1, e2, e3, e4, e5, e6, e7⟩ := sampleRounds_spec _ _ _ _ _ _ _ _ _ _ _ _ _ hsr
+  dsimp only at e1 e4 e6
+  rw [List.nil_append] at e1 e4
+  rw [e1, e4, e6]
+  have hexp : s.explored = true → P = [] := by
+    intro hx
+    apply e7
+    cases shellArg with
+    | none => simp [TransferPhase, hx] at hph
+    | some i => rfl
+  simp only [OpOK] at hop
+  obtain ⟨hop1, hop2⟩ := hop
+  have hks : ∀ p ∈ ks, ∃ r ∈ rounds, p ∈ r.props := by
+    intro p hp
+    obtain ⟨l, hl, hpl⟩ := List.mem_flatten.1 (e2.subset hp)
+    obtain ⟨r, hr, rfl⟩ := List.mem_map.1 hl
+    exact ⟨r, hr, hpl⟩
+  have hksnd : ks.Nodup := hop2.sublist e2
+  have hview := view_addSamplesRes s shellArg ks nBound P (mark P s.tShell) e7
+  rw [inv01_iff] at h ⊢
+  obtain ⟨hg, ht, hn⟩ := h
+  have hfst : (view (addSamplesRes s shellArg ks nBound P (mark P s.tShell)).shells).map Prod.fst
+      = (view s.shells).map Prod.fst := by rw [hview, map_fst_modify, map_fst_modify]
+  have hlen : (view s.shells).length = s.shells.length := by simp [view]
+  have hMf : ∀ p ∈ P.map (fun j => getD s.tPts j 0), env.inCube p = true ∧
+      (∀ b ∈ ((view s.shells).map Prod.fst).getLast?, env.contains b p = true) ∧ p ∈ s.tPts := by
+    intro p hp
+    have hx : s.explored = false := by
+      cases hx : s.explored with
+      | false => rfl
+      | true => rw [hexp hx] at hp; simp at hp
+    obtain ⟨t, hmem, h0⟩ := moved_mem s ha e5 hp
+    exact ⟨(ht hx (p, t) hmem h0).1, (ht hx (p, t) hmem h0).2, (List.of_mem_zip hmem).1⟩
+  refine ⟨?_, ?_, ?_⟩
+  · rw [hview]
+    apply good_modify
+    · apply good_modify _ _ _ _ hg
+      intro p hp
+      refine ⟨(hMf p hp).1, ?_, ?_⟩
+      · intro b hb
+        apply (hMf p hp).2.1 b
+        rw [List.getLast?_eq_getElem?]
+        simpa [hlen] using hb
+      · intro b hb
+        rw [List.drop_of_length_le (by simp [hlen]; omega)] at hb
+        simp at hb
+    · intro p hp
+      rw [map_fst_modify]
+      obtain ⟨r, hr, hpr⟩ := hks p hp
+      obtain ⟨c1, c2, c3, c4⟩ := hop1 r hr p hpr
+      refine ⟨c1, ?_, ?_⟩
+      · intro b hb
+        simp only [view, List.map_map, List.getElem?_map, Option.map_eq_some_iff] at hb
+        obtain ⟨shell, hs, rfl⟩ := hb
+        exact c2 shell hs
+      · intro b hb
+        apply e3 p hp b
+        simpa [view, List.map_map, Function.comp_def] using hb
+  · intro hx tj htj h0
+    rw [hfst]
+    have hmem : tj ∈ s.tPts.zip s.tShell := mem_zip_mark htj h0
+    exact ht hx tj hmem h0
+  · have hU : (if s.explored then [] else unusedTransfers s).Perm
+        (P.map (fun j => getD s.tPts j 0) ++ (if s.explored then [] else unusedL s.tPts (mark P s.tShell))) := by
+      cases hx : s.explored with
+      | true => simp [hexp hx]
+      | false =>
+        simp only [Bool.false_eq_true, if_false]
+        exact unusedL_mark_perm s.tPts P s.tShell ha.2.2.2 e5
+    have hA1 := flatten_modify_perm (P.map (fun j => getD s.tPts j 0)) (view s.shells) (s.shells.length - 1)
+      (by rw [hlen]; omega)
+    have hA2 := flatten_modify_perm ks ((view s.shells).modify (s.shells.length - 1)
+      (fun x => (x.1, x.2 ++ P.map (fun j => getD s.tPts j 0)))) (shellArg.getD (s.shells.length - 1))
+      (by simpa [hlen] using hlt)
+    change (_ ++ (if s.explored then [] else unusedL s.tPts (mark P s.tShell))).Nodup
+    rw [hview]
+    have hgoal : (((((view s.shells).modify (s.shells.length - 1)
+          (fun x => (x.1, x.2 ++ P.map (fun j => getD s.tPts j 0)))).modify
+          (shellArg.getD (s.shells.length - 1)) (fun x => (x.1, x.2 ++ ks))).map Prod.snd).flatten
+          ++ (if s.explored then [] else unusedL s.tPts (mark P s.tShell))).Perm
+        ((((view s.shells).map Prod.snd).flatten ++ (if s.explored then [] else unusedTransfers s)) ++ ks) := by
+      refine (List.Perm.append_right _ (hA2.trans (List.Perm.append_right _ hA1))).trans ?_
+      refine List.Perm.trans ?_ (List.Perm.append_right _ (List.Perm.append_left _ hU.symm))
+      simp only [List.append_assoc]
+      exact List.Perm.append_left _ (List.Perm.append_left _ List.perm_append_comm)
+    rw [hgoal.nodup_iff, List.nodup_append]
+    refine ⟨hn, hksnd, ?_⟩
+    intro a ha' b hb hab
+    subst hab
+    obtain ⟨r, hr, hpr⟩ := hks a hb
+    obtain ⟨_, _, c3, c4⟩ := hop1 r hr a hpr
+    rcases List.mem_append.1 ha' with h1 | h1
+    · exact c3 (by rw [allStored_eq]; exact h1)
+    · apply c4
+      split at h1
+      · simp at h1
+      · exact unusedL_subset _ _ _ h1
+
+theorem inv01_addBound (env : Env) (s : St) (r : Option BId) (ha : Aligned s) (h : Inv01 env s) (hte : TEmpty s) :
+    Inv01 env (addBound env s r).1 := by
+  cases r with
+  | none =>
+    simp only [addBound]
+    split <;> exact h
+  | some b => exact inv01_addBoundOk env s b ha h hte
+
+/-- C01 is preserved by every operation — CORRECTED statement: needs `TEmpty s` (no leftover transfer candidates
+    before the first bound) and `TransferPhase s op` (`add_samples(-1)` only while exploring); see the
+    counterexamples at the end of this file. -/
+theorem inv01_step_corrected (env : Env) (s : St) (op : Op) (ha : Aligned s) (h : Inv01 env s) (hte : TEmpty s)
+    (hop : OpOK env s op) (hph : TransferPhase s op) : Inv01 env (step env s op).1 := by
+  cases op with
+  | addBound r => exact inv01_addBound env s r ha h hte
+  | addSamples sh rs it =>
+    simp only [step]
+    rcases addSamples_cases env s sh rs it with h0 | ⟨points, nBound, idxT', tShell', _, hlt, hsr, hres⟩
+    · rw [h0]; exact h
+    · rw [hres]
+      exact inv01_addSamplesRes env s sh rs it points nBound idxT' tShell' ha h hop hph hlt hsr
+  | endExploration d => exact inv01_endExploration env s d h
+  | setDiscard b => exact inv01_setDiscard env s b h
+
+theorem tEmpty_init (nBatch : Nat) : TEmpty (init nBatch) := fun _ _ => rfl
+
+/-- `TEmpty` is preserved by every operation, whatever the oracles return -/
+theorem tEmpty_step (env : Env) (s : St) (op : Op) (h : TEmpty s) : TEmpty (step env s op).1 := by
+  cases op with
+  | addBound r =>
+    cases r with
+    | none =>
+      simp only [step, addBound]
+      split <;> exact h
+    | some b =>
+      intro _ hs
+      exfalso
+      have hl := congrArg List.length hs
+      simp only [step, addBound, addBoundOk] at hl
+      split at hl <;> simp at hl
+  | addSamples sh rs it =>
+    simp only [step]
+    rcases addSamples_cases env s sh rs it with h0 | ⟨points, nBound, idxT', tShell', hne, _, _, hres⟩
+    · rw [h0]; exact h
+    · rw [hres]
+      intro _ hs
+      exfalso
+      have hl := congrArg List.length hs
+      simp only [addSamplesRes, updateShellInfo, List.length_modify] at hl
+      split at hl
+      · simp only [List.length_modify, List.length_nil] at hl
+        exact hne (List.length_eq_zero_iff.1 hl)
+      · exact hne (List.length_eq_zero_iff.1 hl)
+  | endExploration d =>
+    intro hx
+    simp [step, endExploration, setDiscard, updateAll] at hx
+  | setDiscard b =>
+    intro hx hs
+    simp only [step, setDiscard, updateAll, List.map_eq_nil_iff] at hx hs
+    exact h hx hs
+
+theorem inv01_exec_corrected (env : Env) (s : St) (ops : List Op) (ha : Aligned s) (h : Inv01 env s)
+    (hte : TEmpty s) (hw : WF env s ops) (hp : TPhase env s ops) : Inv01 env (exec env s ops) := by
+  induction ops generalizing s with
+  | nil => exact h
+  | cons op ops ih =>
+    exact ih _ (aligned_step env s op ha) (inv01_step_corrected env s op ha h hte hw.1 hp.1)
+      (tEmpty_step env s op hte) hw.2 hp.2
+
+theorem inv01_exec_init (env : Env) (nBatch : Nat) (ops : List Op) (hw : WF env (init nBatch) ops)
+    (hp : TPhase env (init nBatch) ops) : Inv01 env (exec env (init nBatch) ops) :=
+  inv01_exec_corrected env _ ops (aligned_init nBatch) (inv01_init env nBatch) (tEmpty_init nBatch) hw hp
+
+/-! ### why the phase hypotheses are needed
+
+The statements originally planned,
+  `inv01_step : Aligned s → Inv01 env s → OpOK env s op → Inv01 env (step env s op).1` and
+  `inv01_exec : Aligned s → Inv01 env s → WF env s ops → Inv01 env (exec env s ops)`,
+are false; the three examples below are checked by the kernel. -/
+section Counterexamples
+
+/-- (1) without `TEmpty`: a state with no shell but a leftover transfer candidate; the first `add_bound` keeps
+    the candidate although it need not lie in the new bound. -/
+example :
+    let env : Env := { contains := fun _ _ => false, inCube := fun _ => true }
+    let s : St := { nBatch := 1, tPts := [0], tLs := [0], tBs := [0], tShell := [0] }
+    Aligned s ∧ Inv01 env s ∧ OpOK env s (.addBound (some 0)) ∧ ¬ Inv01 env (step env s (.addBound (some 0))).1 := by
+  decide
+
+/-- (2) without `TransferPhase`: once `explored`, `Inv01` says nothing about the transfer arrays, but
+    `add_samples(-1)` still moves rows out of them — here row 5, which is already stored. -/
+example :
+    let env : Env := { contains := fun _ _ => true, inCube := fun _ => true }
+    let s : St := { nBatch := 1, shells := [{ bound := 0 }, { bound := 1, pts := [5], ls := [5], bs := [5] }],
+                    tPts := [5], tLs := [5], tBs := [5], tShell := [0], explored := true }
+    let op : Op := .addSamples none [⟨[7], []⟩, ⟨[8], [8]⟩] [0]
+    Aligned s ∧ Inv01 env s ∧ OpOK env s op ∧ (step env s op).2 = .ok ∧ ¬ NoDup (step env s op).1 := by
+  decide
+
+/-- (3) `inv01_exec` fails even from `init` under `WF` alone: `endExploration` drops the (empty) newest shell 2,
+    the leftover candidate 1 ∈ bound 2 is then transferred into shell 1 although it is not in bound 1. -/
+example :
+    let env : Env := { contains := fun b p => match b with
+        | 0 => true | 1 => p == 2 || p == 7 || p == 8 | 2 => p == 1 | _ => false, inCube := fun _ => true }
+    let ops : List Op := [ .addBound (some 0), .addSamples none [⟨[1], [1]⟩] [], .addBound (some 1),
+      .addSamples none [⟨[2], [2]⟩] [], .addBound (some 2), .addSamples (some 0) [⟨[3], [3]⟩] [],
+      .endExploration false, .addSamples none [⟨[7], []⟩, ⟨[8], [8]⟩] [0] ]
+    WF env (init 1) ops ∧ Inv01 env (exec env (init 1) ops.dropLast) ∧ ¬ InShells env (exec env (init 1) ops) := by
+  decide
+
+end Counterexamples
 
 end NautilusVerif.Core
+
+#print axioms NautilusVerif.Core.aligned_init
+#print axioms NautilusVerif.Core.aligned_step
+#print axioms NautilusVerif.Core.aligned_exec
+#print axioms NautilusVerif.Core.inv01_init
+#print axioms NautilusVerif.Core.inv01_step_corrected
+#print axioms NautilusVerif.Core.tEmpty_init
+#print axioms NautilusVerif.Core.tEmpty_step
+#print axioms NautilusVerif.Core.inv01_exec_corrected
+#print axioms NautilusVerif.Core.inv01_exec_init
+#print axioms NautilusVerif.Core.assoc_of_inShells
+#print axioms NautilusVerif.Core.shells_disjoint
